@@ -40,7 +40,9 @@ Models: `Model/{SkylineLU,Inverse,StaticMatrix,DenseCheck}.lean`, tied to the re
   `precondition` then `operator()` returns `x` with `A x = b` (`skyline_build_emb`: the constructor's raw storage is the
   dense embedding of `P A Pᵀ`).
 
-What is **not** proved here (see `tools/checks/C16.json`, open items): Cuthill–McKee and Householder QR themselves
+Householder QR itself (the faithful model `Model/QR.lean`) is the subject of `Properties/C16b.lean`.
+
+What is **not** proved here (see `tools/checks/C16.json`, open items): Cuthill–McKee itself
 (V-grade: checker on the implementation's output for the explored inputs only), block-valued (`static_matrix` entries)
 skyline LU (correspondence only), CRS rows with repeated column indices (the constructor keeps the last one, the matrix
 denotes their sum: outside the claim), IEEE rounding.
